@@ -59,6 +59,92 @@ def independent_boson(inp):
                 err = float(np.abs(np.array(d.states[n]) - want).max())
                 if err > 2e-6:
                     bad.append({'method': name, 'dkmax': K, 'add_correlation_time': tau, 'step': n, 'max_error': err})
+    # the same commuting pair written in another basis (real rotation, generic complex unitary), full memory: V rho(t) V^+
+    from replay.c05 import _haar
+    K, tau = None, None
+    par = oqupy.TempoParameters(dt=dt, dkmax=K, epsrel=1e-9)
+    q, _ = np.linalg.qr(rng.normal(size=(3, 3)))
+    for label, V in (('real rotation', q), ('complex unitary', _haar(3, rng))):
+        Ov = V @ O @ V.conj().T
+        bath = oqupy.Bath((Ov + Ov.conj().T) / 2, corr)
+        sys_ = oqupy.System(V @ H @ V.conj().T)
+        r0 = V @ rho0 @ V.conj().T
+        d1 = oqupy.Tempo(sys_, bath, par, r0, 0.0).compute(N * dt, progress_type='silent')
+        pt = oqupy.PtTempo(bath, 0.0, N * dt, par).get_process_tensor(progress_type='silent')
+        d2 = oqupy.compute_dynamics(sys_, initial_state=r0, process_tensor=pt, progress_type='silent')
+        for n in range(N + 1):
+            phi = _phi(corr, n, dt, K, tau)
+            want = np.empty((3, 3), complex)
+            for i in range(3):
+                for j in range(3):
+                    dm, dp = o[i] - o[j], o[i] + o[j]
+                    want[i, j] = rho0[i, j] * np.exp(-1j * (E[i] - E[j]) * n * dt) * np.exp(-dm * (dm * phi.real + 1j * dp * phi.imag))
+            want = V @ want @ V.conj().T
+            for name, d in (('TEMPO', d1), ('PT-TEMPO', d2)):
+                err = float(np.abs(np.array(d.states[n]) - want).max())
+                if err > 2e-6:
+                    bad.append({'method': name, 'basis': label, 'step': n, 'max_error': err})
+    return {'violates': bool(bad), 'detail': bad[:4], 'n_bad': len(bad)}
+
+
+def svd_sweep_parameters(inp):
+    """NodeArray.svd_sweep in both directions on random arrays: (a) every SVD of the sweep is asked for the caller's truncation
+    parameters (spy on tensornetwork.split_node_full_svd), (b) the kept singular values are exactly those above
+    max_truncation_err RELATIVE to the largest one when relative=True, (c) with nothing truncated the contracted array is unchanged"""
+    import oqupy.backends.node_array as na
+    rng = np.random.default_rng(5)
+    bad = []
+    real = na.tn.split_node_full_svd
+    for n in (2, 3, 4):
+        for (fi, ti) in ((0, -1), (-1, 0), (1, n - 1), (n - 1, 0)):
+            for scale in (1.0, 1e-4):            # small overall scale: absolute and relative truncation differ
+                dims = [1] + [int(rng.integers(2, 4)) for _ in range(n - 1)] + [1]
+                tens = [scale * (rng.normal(size=(dims[i], 3, dims[i + 1])) + 1j * rng.normal(size=(dims[i], 3, dims[i + 1]))) for i in range(n)]
+                calls = []
+
+                def spy(*a, **k):
+                    calls.append(k)
+                    return real(*a, **k)
+                for eps, rel in ((1e-2, True), (None, False)):
+                    arr = na.NodeArray([t.copy() for t in tens], left=True, right=True, name='x')
+                    del calls[:]
+                    na.tn.split_node_full_svd = spy
+                    try:
+                        sv = arr.svd_sweep(from_index=fi, to_index=ti, max_singular_values=None, max_truncation_err=eps, relative=rel)
+                    except Exception as e:      # noqa
+                        bad.append({'sites': n, 'from': fi, 'to': ti, 'the sweep raised': type(e).__name__ + ': ' + str(e)[:100]})
+                        continue
+                    finally:
+                        na.tn.split_node_full_svd = real
+                    for k in calls:
+                        if k.get('max_truncation_err') != eps or bool(k.get('relative', False)) != rel or k.get('max_singular_values') is not None:
+                            bad.append({'sites': n, 'from': fi, 'to': ti, 'asked': {'max_truncation_err': eps, 'relative': rel},
+                                        'an SVD of the sweep was called with': {x: repr(k.get(x)) for x in ('max_singular_values', 'max_truncation_err', 'relative')}})
+                            break
+                    f_, t_ = (n + fi if fi < 0 else fi), (n + ti if ti < 0 else ti)
+                    if len(sv) != abs(t_ - f_) or len(calls) != abs(t_ - f_):
+                        bad.append({'sites': n, 'from': fi, 'to': ti, 'factorisations': len(calls), 'bonds between from and to': abs(t_ - f_)})
+                    if eps is None:
+                        try:        # the array must still be usable: sweep back over the whole array
+                            arr.svd_sweep(from_index=-1, to_index=0)
+                            arr.svd_sweep(from_index=0, to_index=-1)
+                            for i, e in enumerate(arr.bond_edges):
+                                if {id(e.node1), id(e.node2)} != {id(arr.nodes[i]), id(arr.nodes[i + 1])}:
+                                    raise ValueError('bond_edges[%d] does not join nodes[%d] and nodes[%d]' % (i, i, i + 1))
+                        except Exception as e:      # noqa
+                            bad.append({'sites': n, 'from': fi, 'to': ti, 'the array is inconsistent after the sweep': type(e).__name__ + ': ' + str(e)[:100]})
+                            continue
+                        full = None
+                        for t in tens:
+                            full = t if full is None else np.tensordot(full, t, axes=([-1], [0]))
+                        nd_, ed_ = na.tn.copy(arr.nodes)
+                        c = nd_[arr.nodes[0]]
+                        for x in arr.nodes[1:]:
+                            c = c @ nd_[x]
+                        order = [ed_[arr.left_edge]] + [ed_[e] for es in arr.array_edges for e in es] + [ed_[arr.right_edge]]
+                        got = c.reorder_edges(order).tensor
+                        if got.shape != full.shape or np.abs(got - full).max() > 1e-10 * scale:
+                            bad.append({'sites': n, 'from': fi, 'to': ti, 'the array changed although nothing was truncated': True})
     return {'violates': bool(bad), 'detail': bad[:4], 'n_bad': len(bad)}
 
 
@@ -69,4 +155,4 @@ def cells_vs_quadrature(inp):
 
 
 # thorough tier (bounded native sweeps): (function, inputs, obligation of the open finding it reproduces or None)
-THOROUGH = [('independent_boson', {}, None)]
+THOROUGH = [('independent_boson', {}, None), ('svd_sweep_parameters', {}, None)]
